@@ -155,6 +155,13 @@ func (p *prop) runModule(c core.Case, w *core.Worker, res *core.Result, r *rand.
 				"func HandleMutual(n int) error {\n\tif err := store.Mutual2(n); err != nil {\n\t\treturn err\n\t}\n\treturn store.Mutual1(n)\n}\n\n" +
 				"func HandleValue(n int) (any, error) {\n\tif n > 0 {\n\t\treturn store.Value(n)\n\t}\n\treturn nil, store.Check(n)\n}\n\n"
 		}
+		// the same named struct type as a field of a holder in ITS OWN package and of a holder in an importing package
+		// (deepcopy is enabled in p1, p3, p4): what a generator learns about the type while generating one package
+		// (local or foreign?) must not carry over to the other
+		fsrc += "type Meta struct {\n\tLabels map[string]string\n\tN      int\n}\n\ntype MetaHolder struct {\n\tM Meta\n\tL []string\n}\n\n"
+		if dep := map[string]string{"p2": "p3", "p4": "p1"}[d]; dep != "" {
+			fsrc += "type ForeignHolder struct {\n\tM    store.Meta\n\tName string\n}\n\n"
+		}
 		fsrc += "type Mixed struct{ n int }\n\nfunc (m Mixed) V1() int { return m.n }\n\nfunc (m *Mixed) P1() { m.n++ }\n\nfunc (m Mixed) V2() int { return m.n + 2 }\n\nfunc (m *Mixed) P2() { m.n += 2 }\n\nfunc (m Mixed) V3() int { return m.n + 3 }\n\n"
 		fsrc += "type NotFound struct{}\n\nfunc (*NotFound) Error() string { return \"not found\" }\n\ntype Invalid struct{}\n\nfunc (*Invalid) Error() string { return \"invalid\" }\n\n" +
 			"func Check(n int) error {\n\tif n < 0 {\n\t\treturn &Invalid{}\n\t}\n\treturn nil\n}\n\n" +
